@@ -324,6 +324,9 @@ class BaseNestedSampler(ABC):
                 else:
                     return
         self.sampling_time += now - self.sampling_start_time
+        # A checkpoint triggered by a signal while this one is being written
+        # must not count the same span again
+        self.sampling_start_time = now
         logger.info("Checkpointing nested sampling")
         if self.checkpoint_callback:
             self.checkpoint_callback(self)
